@@ -10,7 +10,8 @@
 //	certificates computed from the tables (cert.go) — NOT trusted, Lean re-checks each of them against the tables:
 //	    which states may lie directly below which on the state stack (bit masks, 32 rows per number),
 //	    a depth lower bound per state, weight and rank per state (the termination measure), a residue table that
-//	    answers "index of the lowest set bit" for the kernel
+//	    answers "index of the lowest set bit" for the kernel, the right-hand side of every production (from parser.y;
+//	    checked against yyChk for every state that can lie at each position of a handle)
 //
 // `lalr driver` → Csvq/Gen/LalrDriver.lean
 //
@@ -22,6 +23,8 @@
 //	    `yyDollar = yyS[yypt-N : yypt+1]`, max k = the largest constant k of a `yyDollar[k]`, class = "pure" (only
 //	    `yyVAL.f = e` / `yylex.(*Lexer).f = e` with e built from composite literals, calls, constants and
 //	    `yyDollar[k].field` reads) or "other(<what else occurs>)"; nonPureActions; yyR2 once more as a list
+//
+// `lalr actions` → Csvq/Gen/LalrActions.lean (actions.go, grammar.go): the typing of the semantic values — see actions.go
 //
 // The tables file changes only when the grammar's tables change (its Lean check takes a minute and a half); the
 // driver file also when lexer.go or the loop's text changes.
@@ -766,6 +769,7 @@ func main() {
 			die("constant unknownCharacter not found in lexer.go")
 		}
 		emitCertificates(pf)
+		emitProdRhs(pf, dir)
 	case "driver":
 		w.WriteString("/- GENERATED by extract/lalr (mode driver) from lib/parser/parser.go, lexer.go, scanner.go — do not edit.\n")
 		w.WriteString("   The text of the goyacc driver loop outside the semantic actions, of yylex1 and of the lexer wrapper\n")
@@ -811,8 +815,10 @@ func main() {
 			fmt.Fprintf(&w, "%d", x)
 		}
 		w.WriteString("]\n\n")
+	case "actions":
+		emitActions(pf, lf, dir)
 	default:
-		die("usage: lalr tables|driver")
+		die("usage: lalr tables|driver|actions")
 	}
 	w.WriteString("end Csvq.Gen.Lalr\n")
 	fmt.Print(w.String())
